@@ -245,10 +245,16 @@ class Gen:
         if k in ('XOR', 'OR', 'AND'):
             return self.pre(g_bytes, g_bytes) + O(k)
         if k in ('LESS', 'LEQ'):
-            return self.pre(g_int, g_int) + O('LESS' if k == 'LESS'
-                                              else 'LESS_OR_EQUAL')
+            a = g_int(rng)
+            r = rng.random()
+            b = a if r < 0.25 else (isa.int_enc(isa.int_dec(a) + rng.choice(
+                (-1, 1))) if r < 0.45 else g_int(rng))
+            return (P(a, b) if self.use_fresh() else b'') + O(
+                'LESS' if k == 'LESS' else 'LESS_OR_EQUAL')
         if k in ('FLESS', 'FLEQ'):
-            return self.pre(g_float, g_float) + O(
+            a = g_float(rng)
+            b = a if rng.random() < 0.3 else g_float(rng)
+            return (P(a, b) if self.use_fresh() else b'') + O(
                 'FLOAT_LESS' if k == 'FLESS' else 'FLOAT_LESS_OR_EQUAL')
         if k in ('DIVS', 'MODS'):
             return self.pre(g_int, g_int) + O('DIV_INTS' if k == 'DIVS'
@@ -501,7 +507,8 @@ class Gen:
     def control(self, depth):
         rng = self.rng
         k = rng.choice(('IF', 'IFELSE', 'TRY', 'TRYERR', 'LOOPN', 'LOOP1',
-                        'DEF', 'EVAL', 'MERKLE', 'TAPROOT', 'RETLOOP'))
+                        'DEF', 'EVAL', 'MERKLE', 'TAPROOT', 'RETLOOP',
+                        'EVALDEF', 'RETCALL', 'IF', 'IFELSE', 'DEF'))
         d = depth + 1
         if k == 'IF':
             return P(g_bool(rng)) + isa.IF(self.block(d))
@@ -534,6 +541,27 @@ class Gen:
             if rng.random() < 0.8:
                 out += self.block(depth, 1) + isa.CALL(h)
             return out
+        if k == 'EVALDEF':
+            # an evaluated / merklized script redefines a function: the
+            # caller's definition must be the one called afterwards
+            h = rng.choice((0, 3))
+            inner = isa.DEF(h, P(b'in')) + (isa.CALL(h) if rng.random() < 0.5
+                                            else b'')
+            how = rng.random()
+            ev = (P(inner) + O('EVAL')) if how < 0.6 else merkle_wrap(inner)
+            return isa.DEF(h, P(b'out')) + ev + isa.CALL(h)
+        if k == 'RETCALL':
+            # RETURN at some depth inside a function: returns to the caller
+            h = rng.choice((4, 5))
+            inner = O('RETURN') + P(b'dead')
+            for _ in range(rng.randrange(0, 3)):
+                inner = rng.choice((
+                    O('TRUE') + isa.IF(inner),
+                    O('FALSE') + isa.IF_ELSE(P(b'x'), inner),
+                    isa.TRY(inner, P(b'e')),
+                    isa.TRY(O('FALSE') + O('VERIFY'), inner)))
+            return isa.DEF(h, P(b'a') + inner + P(b'dead2')) + isa.CALL(h) \
+                + P(b'after')
         if k == 'EVAL':
             body = self.block(d, 3)
             return (P(body) if body else b'\x03\x00') + O('EVAL')
